@@ -286,7 +286,8 @@ func c09Judge(c *Ctx, r *c09ProcResult) string {
 			small := *cs
 			small.Args = c09ShrinkList(cs.Args, func(a []string) bool { x := small; x.Args = a; return crashes(&x) })
 			small.Lines = c09ShrinkList(cs.Lines, func(l []string) bool { x := small; x.Lines = l; return crashes(&x) })
-			small.Text = fmt.Sprintf("pprof %q, script %q, env %q [shrunk from: %s]", unhexAll(small.Args), unhexAll(small.Lines), small.Env, c09Trunc(cs.Text, 200))
+			small.Bases = c09ShrinkList(cs.Bases, func(b []string) bool { x := small; x.Bases = b; return crashes(&x) })
+			small.Text = fmt.Sprintf("pprof %q, script %q, %d base profile(s) diff_base=%v, env %q [shrunk from: %s]", unhexAll(small.Args), unhexAll(small.Lines), len(small.Bases), small.Diff, small.Env, c09Trunc(cs.Text, 300))
 			cs = &small
 		}
 		_ = site
@@ -931,8 +932,9 @@ func c09Tables(c *Ctx) {
 
 var c09WebPaths = []string{"/", "/top", "/top", "/disasm", "/source", "/source", "/peek", "/peek", "/flamegraph", "/flamegraph", "/flamegraph", "/flamegraph2", "/flamegraphold", "/saveconfig", "/deleteconfig", "/download", "/top", "/disasm"}
 
-func c09Web(c *Ctx, pb []byte, reqs []string, text string) {
-	cs := &c09Case{Kind: "web", Profile: hex.EncodeToString(pb), Lines: hexAll(reqs), Text: text}
+func c09Web(c *Ctx, cs *c09Case) {
+	pb, _ := hex.DecodeString(cs.Profile)
+	reqs, text := unhexAll(cs.Lines), cs.Text
 	p, err := profile.ParseData(pb)
 	if err != nil {
 		return
@@ -941,7 +943,23 @@ func c09Web(c *Ctx, pb []byte, reqs []string, text string) {
 		c.Res.Hit("web/preflight-crash")
 		return
 	}
-	run := c09PProf(p, []string{"-http=unused:1234", "-symbolize=none"}, nil)
+	flags := []string{"-http=unused:1234", "-symbolize=none"}
+	var bases []*profile.Profile
+	for _, bh := range cs.Bases {
+		bb, _ := hex.DecodeString(bh)
+		b, err := profile.ParseData(bb)
+		if err != nil || !c09Preflight(c, c09TheEnv, b, nil) {
+			c.Res.Hit("web/preflight-crash")
+			return
+		}
+		if cs.Diff {
+			flags = append(flags, fmt.Sprintf("-diff_base=c09base%d", len(bases)))
+		} else {
+			flags = append(flags, fmt.Sprintf("-base=c09base%d", len(bases)))
+		}
+		bases = append(bases, b)
+	}
+	run := c09PProfB(p, bases, flags, nil)
 	if run.Panic != "" {
 		c.Violation("C09/panic/"+c09PanicSite(run.Panic), "driver.PProf -http panics: "+c09FirstLine(run.Panic)+" on "+text, cs)
 		return
@@ -1100,25 +1118,55 @@ func runC09(c *Ctx) {
 				}
 				types := c09TypeNames(p)
 				cs := &c09Case{Profile: hex.EncodeToString(pb), N: i}
+				// every fourth case runs with base profiles (-base / -diff_base) and the boolean /
+				// choice / sample_index option grid
+				withBase, baseText := i%8 == 1 || i%8 == 7, ""
+				if withBase {
+					cs.Diff = fr.Chance(55)
+					for k, n := 0, 1+fr.Intn(10)/8; k < n; k++ {
+						b, d := c09BaseFor(fr, p)
+						if bb := c09ProfileBytes(b); bb != nil {
+							cs.Bases = append(cs.Bases, hex.EncodeToString(bb))
+							baseText += fmt.Sprintf(" base[%s %s]", d, describe(b))
+						}
+					}
+					if cs.Diff {
+						baseText = " -diff_base" + baseText
+					} else {
+						baseText = " -base" + baseText
+					}
+				}
 				if fr.Chance(25) {
 					cs.Env = []string{"PPROF_BINARY_PATH=" + fr.Pick([]string{e.tmp + "/home", ":", "/nonexistent", e.tmp + "/home:" + e.tmp + "/cfg", "relative/dir", e.tmp + "/emptybin"})}
 				}
 				if i < nCLI {
 					cs.Kind = "cli"
 					args := c09CLIArgs(fr, types, big)
+					if withBase {
+						args = append(args[:1:1], c09GridArgs(fr, types)...) // the format flag + the option grid
+						if fr.Chance(30) {
+							args = append(args, c09CLIArgs(fr, types, false)[1:]...)
+						}
+					}
 					cs.Args = hexAll(args)
-					cs.Text = fmt.Sprintf("pprof %q <profile %s> env=%q", args, describe(p), cs.Env)
+					cs.Text = fmt.Sprintf("pprof %q%s <profile %s> env=%q", args, baseText, describe(p), cs.Env)
 				} else {
 					cs.Kind = "script"
 					var lines []string
 					for j, n := 0, 5+fr.Intn(20); j < n; j++ {
-						lines = append(lines, c09ScriptLine(fr, types, big, false))
+						if withBase && fr.Chance(55) {
+							lines = append(lines, c09GridLine(fr, types))
+						} else {
+							lines = append(lines, c09ScriptLine(fr, types, big, false))
+						}
 					}
-					if fr.Chance(30) {
+					if withBase {
+						cs.Args = hexAll(c09GridArgs(fr, types))
+					} else if fr.Chance(30) {
 						cs.Args = hexAll([]string{fr.Pick([]string{"-symbolize=none", "-nodecount=3", "-focus=main", "-tagfocus=1:", "-lines", "-sample_index=0", "-trim=false", "-call_tree"})})
 					}
 					cs.Lines = hexAll(lines)
-					cs.Text = fmt.Sprintf("interactive script %q args=%q <profile %s> env=%q", lines, unhexAll(cs.Args), describe(p), cs.Env)
+					cs.Text = fmt.Sprintf("interactive script %q args=%q%s <profile %s> env=%q", lines, unhexAll(cs.Args), baseText, describe(p), cs.Env)
 				}
 				work <- job{i, cs}
 			}
@@ -1172,11 +1220,27 @@ func runC09(c *Ctx) {
 		if pb == nil {
 			continue
 		}
+		cs := &c09Case{Kind: "web", Profile: hex.EncodeToString(pb), Text: "web UI on <profile " + describe(p) + ">"}
+		withBase := i%3 == 2
+		if withBase {
+			cs.Diff = rw.Chance(55)
+			b, d := c09BaseFor(rw, p)
+			if bb := c09ProfileBytes(b); bb != nil {
+				cs.Bases = []string{hex.EncodeToString(bb)}
+				cs.Text += fmt.Sprintf(" diff_base=%v base[%s %s]", cs.Diff, d, describe(b))
+			}
+		}
 		var reqs []string
 		for j := 0; j < 45; j++ {
-			reqs = append(reqs, c09WebPaths[rw.Intn(len(c09WebPaths))]+"?"+c09Query(rw, c09TypeNames(p), i%4 == 0))
+			path := c09WebPaths[rw.Intn(len(c09WebPaths))]
+			if withBase && rw.Chance(60) {
+				reqs = append(reqs, path+"?"+c09GridQuery(rw, c09TypeNames(p)))
+			} else {
+				reqs = append(reqs, path+"?"+c09Query(rw, c09TypeNames(p), i%4 == 0))
+			}
 		}
-		c09Web(c, pb, reqs, "web UI on <profile "+describe(p)+">")
+		cs.Lines = hexAll(reqs)
+		c09Web(c, cs)
 	}
 
 	// ---- collect the campaign
@@ -1223,8 +1287,7 @@ func c09Replay(c *Ctx, e *c09Env) {
 			c09Locate(c, a[0], a[1], cs.N)
 		}
 	case "web":
-		pb, _ := hex.DecodeString(cs.Profile)
-		c09Web(c, pb, unhexAll(cs.Lines), cs.Text)
+		c09Web(c, &cs)
 	case "completer":
 		run := c09PProf(c09SaneProfile(""), []string{"-symbolize=none"}, nil)
 		if run.UI.complete != nil {
